@@ -671,7 +671,18 @@ def _canary_collate_reversed():
         return TensorDict({key: torch.stack([b[key] for b in batch]) for key in batch[0].keys()},
                           batch_size=torch.Size([len(batch)]))
 
-    return patched(TensorDictDataset, "collate_fn", staticmethod(collate_fn))
+    import contextlib
+
+    @contextlib.contextmanager
+    def cm():
+        old = TensorDictDataset.__dict__["collate_fn"]
+        TensorDictDataset.collate_fn = staticmethod(collate_fn)
+        try:
+            yield
+        finally:
+            TensorDictDataset.collate_fn = old
+
+    return cm()
 
 
 def _canary_rollout_drops_partial():
